@@ -272,9 +272,9 @@ pub fn run_sample<R: Read + Seek>(src: R, f: &TestFile, ops: &[Op], seekable: bo
                 let rest: Result<Vec<i32>, String> = match how {
                     0 => {
                         let mut v = vec![];
-                        rd.read_to_end(&mut v).map(|_| v).map_err(|e| format!("{e:?}"))
+                        rd.read_to_end(&mut v).map(|_| v).map_err(|e| crate::api::show(&e))
                     }
-                    1 => rd.into_iter().collect::<Result<Vec<_>, _>>().map_err(|e| format!("{e:?}")),
+                    1 => rd.into_iter().collect::<Result<Vec<_>, _>>().map_err(|e| crate::api::show(&e)),
                     _ => {
                         let mut v = vec![];
                         let mut buf = vec![0i32; 1000];
@@ -282,7 +282,7 @@ pub fn run_sample<R: Read + Seek>(src: R, f: &TestFile, ops: &[Op], seekable: bo
                             match rd.read(&mut buf) {
                                 Ok(0) => break Ok(v),
                                 Ok(k) => v.extend_from_slice(&buf[..k]),
-                                Err(e) => break Err(format!("{e:?}")),
+                                Err(e) => break Err(crate::api::show(&e)),
                             }
                         }
                     }
